@@ -276,6 +276,20 @@ class Program:
                 for t in st.targets:
                     if isinstance(t, ast.Name):
                         m.assigns[t.id] = st.value
+                    elif isinstance(t, ast.Attribute) and isinstance(t.value, ast.Name) and t.value.id in m.classes:
+                        # methods attached after the class body (avoiding circular imports):
+                        #   TensorNetwork.gate_inds = tensor_network_gate_inds
+                        #   TensorNetwork.gate_inds_ = functools.partialmethod(tensor_network_gate_inds, inplace=True)
+                        ci = m.classes[t.value.id]
+                        if _is_partialmethod(st.value):
+                            fi = FuncInfo(t.attr, m, ci, st)
+                            fi.alias_target = dotted(st.value.args[0])
+                            fi.alias_node = st
+                            fi.alias_kwargs = {k.arg: k.value for k in st.value.keywords if k.arg}
+                            fi.lineno = st.lineno
+                            ci.methods[t.attr] = fi
+                        else:
+                            ci.attrs[t.attr] = st.value
             elif isinstance(st, ast.AnnAssign):
                 if isinstance(st.target, ast.Name) and st.value is not None:
                     m.assigns[st.target.id] = st.value
